@@ -129,22 +129,22 @@ fn c14_systematic() -> Vec<Layout> {
         }
         if b >= 16 {
             // self-overlapping range list, non-array (bits 2..=3 named twice) and array form
-            let so = Field { name: "x".into(), kw_bit: false, list: true, ranges: vec![Rng::new(0, 3), Rng::new(2, 5)], array: None, ty: uty(8), access: Access::RW, arg_order: 0, opt_path: 0 };
+            let so = Field { name: "x".into(), kw_bit: false, list: true, ranges: vec![Rng::new(0, 3), Rng::new(2, 5)], array: None, ty: uty(8), access: Access::RW, arg_order: 0, opt_path: 0, huge: None };
             v.push(lay(b, vec![so.clone()]));
             let mut soa = so.clone();
             soa.array = Some(ArrayDecl { count: 2, stride: Some(8), colon: false });
             v.push(lay(b, vec![soa]));
             // the same ranges without the overlap
-            let ok = Field { name: "x".into(), kw_bit: false, list: true, ranges: vec![Rng::new(0, 3), Rng::new(4, 7)], array: None, ty: uty(8), access: Access::RW, arg_order: 0, opt_path: 0 };
+            let ok = Field { name: "x".into(), kw_bit: false, list: true, ranges: vec![Rng::new(0, 3), Rng::new(4, 7)], array: None, ty: uty(8), access: Access::RW, arg_order: 0, opt_path: 0, huge: None };
             v.push(lay(b, vec![ok.clone()]));
             // list array whose elements collide through the stride (element 1 re-uses bits of element 0)
-            let coll = Field { name: "x".into(), kw_bit: false, list: true, ranges: vec![Rng::new(0, 1), Rng::new(4, 5)], array: Some(ArrayDecl { count: 2, stride: Some(4), colon: false }), ty: uty(4), access: Access::RW, arg_order: 0, opt_path: 0 };
+            let coll = Field { name: "x".into(), kw_bit: false, list: true, ranges: vec![Rng::new(0, 1), Rng::new(4, 5)], array: Some(ArrayDecl { count: 2, stride: Some(4), colon: false }), ty: uty(4), access: Access::RW, arg_order: 0, opt_path: 0, huge: None };
             v.push(lay(b, vec![coll.clone()]));
             let mut inter = coll.clone();
             inter.array = Some(ArrayDecl { count: 2, stride: Some(2), colon: false });
             v.push(lay(b, vec![inter])); // interleaves without collision
             // single repeated bit
-            let rep = Field { name: "x".into(), kw_bit: false, list: true, ranges: vec![Rng::bit(3), Rng::new(0, 1), Rng::bit(3)], array: None, ty: uty(4), access: Access::RW, arg_order: 0, opt_path: 0 };
+            let rep = Field { name: "x".into(), kw_bit: false, list: true, ranges: vec![Rng::bit(3), Rng::new(0, 1), Rng::bit(3)], array: None, ty: uty(4), access: Access::RW, arg_order: 0, opt_path: 0, huge: None };
             v.push(lay(b, vec![rep]));
         }
     }
